@@ -1,4 +1,104 @@
-import Cutadapt.Parser
-/-! # C18 — adapter specifications mean what the documented notation says (work in progress) -/
+import Cutadapt.Proofs.ParserTop
+/-! # C18 — adapter specifications mean what the documented notation says
+
+Model: `Cutadapt.Parser` (`parse` = `make_adapters_from_one_specification` on the `search_parameters` of `cli.adapters_from_args`,
+down to the checks of the adapter and aligner constructors).  Grammar, rendering and documented meaning:
+`Cutadapt.Notation` (`Spec`, `Spec.render`, `meaning`, `Spec.WF`), written from doc/guide.rst.
+
+All theorems are for every specification of the grammar (any option letter, restriction, parameter list, name, run-length
+expression, linked combination, file variant with any number of records) and all global options; no sampling. -/
 namespace Cutadapt.C18
+open Cutadapt.Parser Cutadapt.Notation Cutadapt.ParserProofs
+
+/-! ## The main theorem -/
+
+/-- **`parse_render`.** For every well-formed specification `s` of the documented grammar and all global options (with an integer
+    `-O`), parsing the text `s.render` given after `-a`/`-g`/`-b` (with the FASTA records `s.records` for `file:` forms) yields
+    exactly the adapters `meaning s g` that the documentation describes — class, sequence, name, error rate (absolute numbers
+    divided by the number of non-N bases), minimum overlap, indels, wildcards, `anywhere`, required/optional — or, precisely when the
+    documentation's side conditions are violated, an error that the command line reports with exit status 2. -/
+theorem parse_render (s : Spec) (g : Globals) (hs : s.WF) (hg : GlobalsOK g) :
+    toKind (parse s.render s.opt.atype g s.records) = meaning s g := by
+  cases s with
+  | plain o b => exact parse_plain o hs g hg
+  | file o a path fparams records => exact parse_file o a path fparams records hs g hg
+
+/-- `-a`, `-g`, `-b` select 3', 5' and "anywhere" adapters. -/
+theorem option_letter : Opt.a.atype = .back ∧ Opt.g.atype = .front ∧ Opt.b.atype = .anywhere := ⟨rfl, rfl, rfl⟩
+
+/-! ## Sub-lemmas: braces, parameters, restrictions -/
+
+/-- **`expand_render_runs`**: brace expansion inverts run-length rendering — `x{n}` repeats the character `x` `n` times
+    (`n ≤ 10000`, the characters themselves are not braces). -/
+theorem expand_render_runs (rs : List Run) (hrs : ∀ r ∈ rs, r.c ≠ '{' ∧ r.c ≠ '}' ∧ ∀ n, r.rep = some n → n ≤ 10000) :
+    expandBraces (renderRuns rs) = .ok (expandRuns rs) :=
+  expandBraces_renderRuns rs hrs
+
+/-- **`params_roundtrip`** (exact form): the text `p1;p2;…` parses into the written (canonical name, value) pairs — `e`,
+    `max_error_rate`, `max_errors` all become `max_errors`, `o` becomes `min_overlap`, integers stay integers, `ddd.ddd` becomes the
+    exact decimal, flags become `True` — followed by the `optional → required=False`, `noindels → indels=False` rewriting; a
+    parameter given twice (under any of its names) is a `KeyError`. -/
+theorem params_roundtrip_exact (ps : List Param) :
+    parseParams (paramsTail ps) =
+      if (ps.map (fun p => p.name.key)).Nodup then postParams (paramDict ps) else .error .duplicateKey :=
+  parseParams_tail ps
+
+/-- **`params_roundtrip`**: a consistent parameter list is read back as written. -/
+theorem params_roundtrip (ps : List Param) (hc : paramsConsistent ps = true) :
+    ∃ P, parseParams (paramsTail ps) = .ok P ∧
+      Params.get P .maxErrors = (paramSem ps).e ∧ Params.get P .minOverlap = (paramSem ps).o ∧
+      Params.get P .indels = (paramSem ps).indels ∧ Params.get P .required = (paramSem ps).required ∧
+      P.flag .anywhere = (paramSem ps).anywhere ∧ P.flag .rightmost = (paramSem ps).rightmost ∧
+      Params.get P .optional = none ∧ Params.get P .noindels = none := by
+  rw [consistent_iff] at hc
+  obtain ⟨hnd, h1, h2⟩ := hc
+  obtain ⟨P, hP, hget⟩ := postParams_ok _ h1 h2
+  obtain ⟨hse, hso, hsi, hsr, hsa, hsrm⟩ := sem_fields ps
+  refine ⟨P, by rw [parseParams_tail]; simp [hnd, hP], ?_, ?_, ?_, ?_, ?_, ?_, ?_, ?_⟩
+  · rw [hget, hse]
+  · rw [hget, hso]
+  · rw [hget, hsi]
+  · rw [hget, hsr]
+  · rw [hsa]; simp [Params.flag, hget, postGet]
+  · rw [hsrm]; simp [Params.flag, hget, postGet]
+  · rw [hget]; rfl
+  · rw [hget]; rfl
+
+/-- the abbreviations of the guide's table -/
+theorem abbreviations :
+    PName.e.key = .maxErrors ∧ PName.maxErrorRate.key = .maxErrors ∧ PName.maxErrors.key = .maxErrors ∧
+    PName.o.key = .minOverlap ∧ PName.minOverlap.key = .minOverlap := ⟨rfl, rfl, rfl, rfl, rfl⟩
+
+/-- **`restrictions_roundtrip`**: `^ADAPTER`, `ADAPTER$`, `XADAPTER`, `ADAPTERX` are recognised as anchored / non-internal at the
+    5' / 3' side, and the adapter sequence is what remains. -/
+theorem restrictions_roundtrip (r : Restr) {sq : Str} (h : edgeOK sq) (hc : ∀ c ∈ sq, c ≠ '^' ∧ c ≠ '$') :
+    parseRestrictions (r.pre ++ sq ++ r.suf) =
+      some (match r with | .caret => some .anchored | .xLeft => some .noninternal | _ => none,
+            match r with | .dollar => some .anchored | .xRight => some .noninternal | _ => none, sq) := by
+  rw [parseRestrictions_render r h hc]
+  cases r <;> rfl
+
+/-! ## Precedence -/
+
+/-- **`precedence`** (the model's merge): adapter-specific parameters `ps` override file-level parameters `fp`, which override
+    the global options `g`. -/
+theorem precedence (g fp ps : Params) (k : Key) :
+    Params.get ((g.update fp).update ps) k =
+      match Params.get ps k with
+      | some v => some v
+      | none => match Params.get fp k with
+        | some v => some v
+        | none => Params.get g k := by
+  rw [Params.get_update]
+  cases Params.get ps k with
+  | some v => rfl
+  | none => simp only; rw [Params.get_update]; cases Params.get fp k <;> rfl
+
+/-- `precedence`, documented side: the settings in force for a record of a `file:` specification are the global ones overridden
+    by the file-level parameters (`Base.override`), and `meaningPart` lets the record's own parameters override those. -/
+theorem precedence_documented (g : Globals) (fparams : List Param) :
+    let b := (Base.ofGlobals g).override (paramSem fparams)
+    b.e = ((paramSem fparams).e.getD g.maxErrors) ∧ b.o = ((paramSem fparams).o.getD g.minOverlap) ∧
+    b.indels = ((paramSem fparams).indels.getD (.bool g.indels)) := ⟨rfl, rfl, rfl⟩
+
 end Cutadapt.C18
